@@ -194,6 +194,12 @@ def correspond_curves(res, tier, rng):
         vec, sca = real_eval_lines(curve, xs)
         add('param eval %d %s %s' % (cl, ev, enc(xs)), vec, (name, 'eval vectorised'))
         add('param eval %d %s %s' % (cl, ev, enc(xs)), sca, (name, 'eval scalar'))
+        for rep in range(3):
+            ys = list(xs)
+            rng.shuffle(ys)
+            ys = ys[:max(3, len(ys) // (rep + 1))]
+            vec2, _ = real_eval_lines(curve, ys)
+            add('param eval %d %s %s' % (cl, ev, enc(ys)), vec2, (name, 'eval vectorised, unsorted parameters', rep))
         for bad in (F(-1, 8), L + F(1, 8)):
             try:
                 curve.eval(float(bad))
@@ -590,6 +596,29 @@ def curve_oracle(curve, vs, exact, scale=1.0):
             r = ref_point(vs, F(x))
             if (F(ps[0]), F(ps[1])) != r:
                 bad.append('eval: eval(%r) = %r, reference polygon point %r' % (x, ps, (float(r[0]), float(r[1]))))
+    # the vectorised evaluation is pointwise: any ORDER of the parameters (unsorted, reversed, with repetitions,
+    # confined to one piece or spanning several) gives the same point per parameter
+    import random as _random
+    prng = _random.Random(7919 * len(xs) + npieces)
+    for trial in range(6):
+        idx = list(range(len(xs)))
+        if trial == 0:
+            idx.reverse()
+        elif trial == 1:
+            idx = idx[1::2] + idx[0::2]
+        else:
+            prng.shuffle(idx)
+            if trial >= 4:
+                idx = idx[:max(2, len(idx) // 2)] + [prng.choice(idx) for _ in range(3)]
+        sub = np.asarray(curve.eval(np.array([xs[j] for j in idx])))
+        for pos, j in enumerate(idx):
+            if (float(sub[0, pos]), float(sub[1, pos])) != (float(arr[0, j]), float(arr[1, j])):
+                bad.append('eval: parameter vector in order %r: entry %d (parameter %r) evaluates to %r, in ascending order to %r'
+                           % ([xs[i_] for i_ in idx][:8], pos, xs[j], (float(sub[0, pos]), float(sub[1, pos])),
+                              (float(arr[0, j]), float(arr[1, j]))))
+                break
+        if bad and bad[-1].startswith('eval: parameter vector'):
+            break
     # chord <= arc across pieces (true for every arc-length curve)
     for a in range(len(xs)):
         for b in range(a + 1, len(xs)):
